@@ -182,18 +182,37 @@ func genCqueue(x *sched.Exec) cqScenario {
 		nc, maxOps = 1+r.Intn(3), 8
 	}
 	pushBias := 3 + r.Intn(5) // out of 10
+	// The monitors track every sequential state consistent with the history; concurrent pushes
+	// whose order no Pop has observed yet multiply that set (k overlapping pushes: up to k! orders).
+	// Concurrent histories therefore contain at most maxPush pushes (the init pushes are sequential).
+	maxPush := 6
+	if kind == "deque" && !par {
+		maxPush = 1 << 30 // sequential histories: one configuration
+	}
+	npush := 0
+	mayPush := func() bool {
+		if npush >= maxPush {
+			return false
+		}
+		npush++
+		return true
+	}
 	for i := 0; i < nc; i++ {
 		var prog []cqOp
 		for n := 1 + r.Intn(maxOps); n > 0; n-- {
 			if kind == "lifo" {
-				if r.Intn(10) < pushBias {
+				if r.Intn(10) < pushBias && mayPush() {
 					prog = append(prog, cqOp{Op: "push", V: val()})
 				} else {
 					prog = append(prog, cqOp{Op: "pop"})
 				}
 				continue
 			}
-			switch k := r.Intn(26); {
+			k := r.Intn(26)
+			if k < 10 && !mayPush() {
+				k = 10 + r.Intn(16)
+			}
+			switch {
 			case k < 6:
 				prog = append(prog, cqOp{Op: "push", V: val()})
 			case k < 10:
